@@ -301,6 +301,12 @@ def condition_coercion():
     return guarded("condition", run)
 
 
+def independence_shared_with_c05():
+    # statements of one line and lines of one program are executed in sequence: each is translated on its own (shared with C05)
+    from tx.p_c05 import statement_independence
+    return statement_independence()
+
+
 def prog_sequencing():
     def run():
         res = []
@@ -339,4 +345,4 @@ def convert_sequencing():
 
 
 def obligations():
-    return next_patcher() + fornext_count() + if_semantics() + if_parse_forms() + condition_coercion() + prog_sequencing() + convert_sequencing()
+    return next_patcher() + fornext_count() + if_semantics() + if_parse_forms() + condition_coercion() + independence_shared_with_c05() + prog_sequencing() + convert_sequencing()
